@@ -741,6 +741,105 @@ theorem fuel_ok (arg : Expr) (dirs : List Directive) (n : Nat) (hn : (unsp (piec
 
 end
 
+/-! ## from the tag to the FILE: `beginTag`, `textOrTag`, `itemList`, `parse.SoyFile` -/
+
+section
+open SoyVerif.Model.FileParser (FState FP liftP parsePrint Node NodeList beginTag textOrTag itemListLoop skipComments
+  parseFile parseSource)
+open SoyVerif.Lemmas.ParserRound
+
+theorem fnext_at {st : FState} {t : Tk} {ts : List Tk} (h : At st.p (t :: ts)) :
+    ∃ it p', FileParser.next st = .ok (it, { st with p := p' }) ∧ it.typ = t.typ ∧ it.val = t.val ∧ Just p' it ts := by
+  obtain ⟨it, p', hn, a, b, c⟩ := next_at h
+  exact ⟨it, p', liftP_ok hn, a, b, c⟩
+
+theorem fbackup_just {st : FState} {it : Item} {ts : List Tk} (h : Just st.p it ts) :
+    ∃ p', FileParser.backup st = .ok ((), { st with p := p' }) ∧ At1 p' (it.tk :: ts) := by
+  obtain ⟨p', hb, a⟩ := backup_just h
+  exact ⟨p', liftP_ok hb, a⟩
+
+theorem tk_eq {it : Item} {t : Tk} (h1 : it.typ = t.typ) (h2 : it.val = t.val) : it.tk = t := by
+  cases t; cases it; simp_all [Item.tk]
+
+theorem skipComments_id (f : Nat) (token : Item) (st : FState) (h : token.typ ≠ .tComment) :
+    skipComments (f + 1) token st = .ok (token, st) := by
+  unfold skipComments
+  have : (token.typ == ItemType.tComment) = false := by simpa using h
+  simp [this, pure, StateT.pure, Except.pure]
+
+variable (ff : UInt64 → Bytes) (pf : Bytes → Option UInt64) (T : TableOK)
+
+omit T in
+/-- the token stream of a print command's body begins with a token of `headTypes` -/
+theorem body_head (arg : Expr) (dirs : List Directive) :
+    ∃ t r, unsp (piecesBody ff arg dirs) = t :: r ∧ t.typ ∈ headTypes := by
+  obtain ⟨t, hh, hty⟩ := pieces_head ff arg
+  unfold piecesBody
+  cases hp : pieces ff arg with
+  | nil => rw [hp] at hh; cases hh
+  | cons x ps =>
+    rw [hp] at hh
+    simp only [List.head?_cons, Option.some.injEq] at hh
+    subst hh
+    exact ⟨t, _, rfl, hty⟩
+
+include T
+
+/-- `beginTag` (the `{` has been read) on the tokens of a printed print command: whatever token the printed expression
+    begins with — `(` `[` `-` `not` `null` a boolean, an identifier, `$ident`, an integer, a float, a string —, the
+    dispatch takes the implicit-print arm, backs that token up and `parsePrint` gives the print node back; the node's
+    position is that first token's -/
+theorem beginTag_print (arg : Expr) (dirs : List Directive) (hC : CmdCanon ff pf arg dirs) (ef fuel : Nat)
+    (hE : ExprFuel ff ef arg dirs) (hf : ∀ d ∈ dirs, d.args.length + dirs.length + 1 < fuel) (hf' : dirs.length < fuel)
+    (rest : List Tk) (st : FState) (hst : At st.p (unsp (piecesBody ff arg dirs) ++ tRD :: rest)) :
+    ∃ pos e' ds' p2, beginTag pf ef (fuel + 1) st = .ok (some (Node.print pos e' ds'), { st with p := p2 }) ∧
+      erase e' = erase arg ∧ ds'.map eraseDir = dirs.map eraseDir ∧ At p2 rest := by
+  obtain ⟨t, r, hr, hty⟩ := body_head ff arg dirs
+  have hst1 : At st.p (t :: (r ++ tRD :: rest)) := by rw [hr] at hst; simpa using hst
+  obtain ⟨it, p1, hn, hity, hiv, hj⟩ := fnext_at hst1
+  obtain ⟨p2, hb, ha1⟩ := fbackup_just (st := { st with p := p1 }) hj
+  rw [tk_eq hity hiv, ← List.cons_append, ← hr] at ha1
+  obtain ⟨e', ds', p3, hpp, he, hd, ha⟩ := parsePrint_rt ff pf T arg dirs hC ef fuel hE hf hf' it rest
+    { st with p := p2 } ha1.at
+  refine ⟨it.pos, e', ds', p3, ?_, he, hd, ha⟩
+  unfold beginTag
+  rw [fbind_ok hn]
+  rw [← hity] at hty
+  simp only [headTypes, List.mem_cons, List.not_mem_nil, or_false] at hty
+  rcases hty with h | h | h | h | h | h | h | h | h | h | h <;>
+    (simp only [h]; rw [fbind_ok hb, fbind_ok hpp]; rfl)
+
+/-- `textOrTag` handed the `{` of a printed print command (`untl` holds neither `{` nor a first token of an expression) -/
+theorem textOrTag_print (arg : Expr) (dirs : List Directive) (hC : CmdCanon ff pf arg dirs) (ef fuel : Nat)
+    (hE : ExprFuel ff ef arg dirs) (hf : ∀ d ∈ dirs, d.args.length + dirs.length + 1 < fuel) (hf' : dirs.length < fuel)
+    (untl : List ItemType) (hu1 : untl.contains .tLeftDelim = false) (hu2 : ∀ t ∈ headTypes, untl.contains t = false)
+    (token : Item) (htok : token.typ = .tLeftDelim)
+    (rest : List Tk) (st : FState) (hst : At st.p (unsp (piecesBody ff arg dirs) ++ tRD :: rest)) :
+    ∃ pos e' ds' p2, textOrTag pf ef (fuel + 2) token untl st =
+        .ok ((some (Node.print pos e' ds'), false), { st with p := p2 }) ∧
+      erase e' = erase arg ∧ ds'.map eraseDir = dirs.map eraseDir ∧ At p2 rest := by
+  obtain ⟨t, r, hr, hty⟩ := body_head ff arg dirs
+  have hst1 : At st.p (t :: (r ++ tRD :: rest)) := by rw [hr] at hst; simpa using hst
+  obtain ⟨it, p1, hn, hity, hiv, hj⟩ := fnext_at hst1
+  obtain ⟨p2, hb, ha1⟩ := fbackup_just (st := { st with p := p1 }) hj
+  rw [tk_eq hity hiv, ← List.cons_append, ← hr] at ha1
+  obtain ⟨pos, e', ds', p3, hbt, he, hd, ha⟩ := beginTag_print ff pf T arg dirs hC ef fuel hE hf hf' rest
+    { st with p := p2 } ha1.at
+  refine ⟨pos, e', ds', p3, ?_, he, hd, ha⟩
+  unfold textOrTag
+  simp only
+  rw [fbind_ok (skipComments_id fuel token st (by rw [htok]; decide))]
+  simp only [htok, hu1, Bool.false_eq_true, if_false]
+  rw [fbind_ok hn]
+  simp only [hity, hu2 t.typ hty, Bool.and_false, Bool.false_eq_true, if_false]
+  rw [fbind_ok hb]
+  simp only [show (ItemType.tLeftDelim == ItemType.tText) = false by decide, Bool.false_eq_true, if_false,
+    beq_self_eq_true, if_true]
+  rw [fbind_ok hbt]
+  rfl
+
+end
+
 /-! ## from bytes to the print node, and injectivity -/
 
 section
